@@ -557,6 +557,9 @@ func checkTDQuoteBody(tdQuoteBody *pb.TDQuoteBody) error {
 	if len(tdQuoteBody.GetMrOwnerConfig()) != MrOwnerConfigSize {
 		return fmt.Errorf("mrOwnerConfig size is %d bytes. Expected %d bytes", len(tdQuoteBody.GetMrOwnerConfig()), MrOwnerConfigSize)
 	}
+	if len(tdQuoteBody.GetReportData()) != ReportDataSize {
+		return fmt.Errorf("reportData size is %d bytes. Expected %d bytes", len(tdQuoteBody.GetReportData()), ReportDataSize)
+	}
 	if len(tdQuoteBody.GetRtmrs()) != rtmrsCount {
 		return fmt.Errorf("rtmrs count is %d. Expected %d", len(tdQuoteBody.GetRtmrs()), rtmrsCount)
 	}
